@@ -89,6 +89,60 @@ def run_iter(make_iter, cap):
     return out, None
 
 
+def _close(it):
+    close = getattr(it, 'close', None)
+    if close is not None:
+        try:
+            with deadline(10):
+                close()
+        except BaseException:       # noqa: BLE001
+            pass
+
+
+def run_partial_then_full(ds, cap):
+    """Take one example, abandon that iteration, then iterate completely."""
+    it = None
+    try:
+        with deadline(10):
+            it = iter(ds)
+            next(it)
+    except BaseException:       # noqa: BLE001   (empty / failing first example: nothing to abandon)
+        _close(it)
+        return None
+    _close(it)
+    return run_iter(lambda: iter(ds), cap)
+
+
+def run_interleaved(ds, cap):
+    """Two iterators over one object advanced alternately; returns both streams."""
+    its = [None, None]
+    outs = [[], []]
+    excs = [None, None]
+    try:
+        with deadline(20):
+            its[0], its[1] = iter(ds), iter(ds)
+            live = [True, True]
+            for _ in range(cap):
+                for j in (0, 1):
+                    if not live[j]:
+                        continue
+                    try:
+                        outs[j].append(canon(next(its[j])))
+                    except StopIteration:
+                        live[j] = False
+                    except BaseException as e:      # noqa: BLE001
+                        live[j] = False
+                        excs[j] = exc_name(e)
+                if not any(live):
+                    break
+    except Timeout:
+        excs = ['HANG', 'HANG']
+    finally:
+        _close(its[0])
+        _close(its[1])
+    return (outs[0], excs[0]), (outs[1], excs[1])
+
+
 def exc_ok(got, want):
     """Does the observed exception class name match the injected one (subclass names are exact here)."""
     if want is None:
@@ -145,6 +199,15 @@ def observe_iter(ds, ref, out):
         if not cmp_stream(kind, run_iter(lambda: iter(ds), cap), vals, exc, out):
             return
     if ref.finite:
+        # an aborted iteration and two iterations in flight over the SAME object must not disturb each other
+        got = run_partial_then_full(ds, cap)
+        if got is not None and not cmp_stream('iter-after-aborted-iteration', got, vals, exc, out):
+            return
+        a, b = run_interleaved(ds, cap)
+        if a is not None:
+            if not (cmp_stream('iter-two-iterators-in-flight', a, vals, exc, out)
+                    and cmp_stream('iter-two-iterators-in-flight', b, vals, exc, out)):
+                return
         for kind, freeze in (('copy', False), ('copy-freeze', True)):
             try:
                 c = ds.copy(freeze=freeze)
